@@ -184,7 +184,14 @@ fn gen_case(seed: u64, tier: Tier) -> Case {
 				5 => SoundCmd::ResumeAt(StartSpec::Delayed(rng.frange(0.0, 0.004)), gen_tween(&mut rng)),
 				6 => SoundCmd::SetVolume(Val::Fixed(Db(rng.frange(-30.0, 6.0) as f32)), gen_tween(&mut rng)),
 				7 => SoundCmd::SetRate(Val::Fixed(Rate(*rng.pick(&[0.0, 0.5, 1.0, 2.0, 1.3]))), gen_tween(&mut rng)),
-				_ => SoundCmd::SetPanning(Val::Fixed(Pan(rng.frange(-1.0, 1.0) as f32)), gen_tween(&mut rng)),
+				// (targets from a pool: a panning change that ends exactly at the centre occurs)
+				_ => SoundCmd::SetPanning(
+					Val::Fixed(Pan({
+						let r = rng.frange(-1.0, 1.0) as f32;
+						*rng.pick(&[0.0f32, 0.0, -1.0, 1.0, r, r])
+					})),
+					gen_tween(&mut rng),
+				),
 			};
 			cmds.push((at, cmd));
 		}
